@@ -9,13 +9,13 @@ def matrix(fn):
     if not os.path.exists(p): return m
     for l in open(p):
         f = l.split()
-        if len(f) < 5 or not re.match(r'C\d\d[A-D]$', f[0]): continue
+        if len(f) < 5 or not re.match(r'C\d\d[A-F]$', f[0]): continue
         rc = int(f[3].split('=')[1]); viol = int(f[5].split('=')[1])
         clauses = re.findall(r'clause=([^ ]+)', l)
         m.setdefault(f[0], {})[f[1] + ':' + f[2]] = {'exit': rc, 'violation_lines': viol, 'clauses': clauses}
     return m
-first = matrix('matrix-quick.txt'); first.update(matrix('matrix-r2-first.txt'))
-final = matrix('matrix-final.txt')
+first = matrix('matrix-quick.txt'); first.update(matrix('matrix-r2-first.txt')); first.update(matrix('matrix-r3-first.txt'))
+final = matrix('matrix-final.txt'); final.update(matrix('matrix-r3-final.txt'))
 extra = matrix('matrix-extra.txt')
 for d in sorted(glob.glob(os.path.join(here, 'seeded', 'C*'))):
     name = os.path.basename(d)
@@ -30,7 +30,8 @@ for d in sorted(glob.glob(os.path.join(here, 'seeded', 'C*'))):
         'witness': a.get('witness'),
         'demo': {'file': 'demo_test.go', 'dir': a.get('demo_dir', '.') or '.'},
         'written_by': 'independent sub-agent given only the property text and a scratch worktree' + ('' if name[3] in 'AB' else ' (second campaign; told which functions the first campaign had already used)'),
-        'rebased': name in ('C11D', 'C20C'),
+        'rebased': name in ('C11D', 'C20C', 'C04F'),
+        'campaign': {'A': 1, 'B': 1, 'C': 2, 'D': 2, 'E': 3, 'F': 3}[name[3]],
         'confirmed_independently': confirmed,
         'what_was_run': [
             'tools/seedverify.sh seeded/%s  (scratch worktree: patch applies, go build, full test suite passes with the change, demo fails with it and passes without it)' % name,
